@@ -428,8 +428,12 @@ fn parse_matched_braces_or_ending_semi(input: ParseStream) -> syn::Result<TokenS
                     let is_interpolated_item = tokens.is_empty()
                         && group.delimiter() == Delimiter::None
                         && ends_an_item(group.stream());
+                    // and a body that it passed on as a `$body:block` fragment
+                    // as a `{..}` inside invisible delimiters:
+                    let is_interpolated_block =
+                        group.delimiter() == Delimiter::None && is_a_block(group.stream());
                     tokens.extend(std::iter::once(tt));
-                    if is_brace || is_interpolated_item {
+                    if is_brace || is_interpolated_item || is_interpolated_block {
                         return Ok((tokens, next));
                     }
                 }
@@ -458,6 +462,16 @@ fn parse_matched_braces_or_ending_semi(input: ParseStream) -> syn::Result<TokenS
     }
 
     Ok(tokens)
+}
+
+/// Whether the tokens are one `{..}`
+fn is_a_block(stream: TokenStream) -> bool {
+    let mut tokens = stream.into_iter();
+    matches!(
+        (tokens.next(), tokens.next()),
+        (Some(proc_macro2::TokenTree::Group(group)), None)
+            if group.delimiter() == proc_macro2::Delimiter::Brace
+    )
 }
 
 /// Whether the tokens end the way an item does: in `{..}` or `;`
